@@ -62,3 +62,33 @@ class SimEventLoop(asyncio.BaseEventLoop):
 
     async def shutdown_default_executor(self, timeout=None):
         return None
+
+
+# A coroutine that loops on StreamReader.read() at end-of-stream never suspends (read() returns b'' at once), so neither the
+# event loop nor any timer can run while it does. In a real process such a loop burns CPU and wall-clock time passes; here the
+# virtual clock would stand still and a loop that is bounded by a deadline (as adb_shell's read loop is) would never end. The seam
+# is the reader itself: a read() that returns b'' without the loop having run costs EOF_SPIN_COST virtual seconds, and a spin that
+# has consumed more than EOF_SPIN_LIMIT virtual seconds without the event loop running once ends the run as a hang.
+_orig_stream_read = asyncio.StreamReader.read
+EOF_SPIN_COST = 0.01
+EOF_SPIN_LIMIT = 3600.0
+
+
+async def _guarded_stream_read(self, n=-1):
+    loop = getattr(self, '_loop', None)
+    if not isinstance(loop, SimEventLoop):
+        return await _orig_stream_read(self, n)
+    it = loop.iterations
+    data = await _orig_stream_read(self, n)
+    if data or loop.iterations != it:
+        self._sim_spin = 0.0
+        return data
+    self._sim_spin = getattr(self, '_sim_spin', 0.0) + EOF_SPIN_COST
+    loop.clock.advance(EOF_SPIN_COST)
+    loop.eof_spins = getattr(loop, 'eof_spins', 0) + 1
+    if self._sim_spin > EOF_SPIN_LIMIT:
+        raise LoopDeadlock('StreamReader.read() returned end-of-stream for %.0f virtual seconds in a row without the event loop running once: a coroutine spins without ever waiting' % EOF_SPIN_LIMIT)
+    return data
+
+
+asyncio.StreamReader.read = _guarded_stream_read
